@@ -414,8 +414,74 @@ def probe_points(net, pts):
 
 
 # ----------------------------------------------------------------------------- cache protocol probes
+def maneuver_rules(net):
+    """conflictingManeuvers / reverseManeuvers (lazily computed tuples of maneuvers): never raise, stay inside the
+    maneuver's intersection, exclude maneuvers from the same start lane (resp. relate swapped start/end roads), no
+    duplicates, and are reciprocal.  -> (number of maneuvers examined, list of failures)"""
+    seen, mans = set(), []
+    for holder in list(net.lanes) + list(net.intersections):
+        for m in holder.maneuvers:
+            if id(m) not in seen:
+                seen.add(id(m))
+                mans.append(m)
+    bad = []
+
+    def ident(m):
+        return dict(start=getattr(m.startLane, "uid", None), end=getattr(m.endLane, "uid", None),
+                    connecting=getattr(m.connectingLane, "uid", None), intersection=getattr(m.intersection, "uid", None),
+                    type=str(m.type))
+    got = {}
+    for m in mans:
+        for attr in ("conflictingManeuvers", "reverseManeuvers"):
+            try:
+                got[(id(m), attr)] = tuple(getattr(m, attr))
+            except Exception as e:  # noqa
+                got[(id(m), attr)] = None
+                bad.append(dict(rule=attr + "-raises", maneuver=ident(m), error=type(e).__name__ + ": " + str(e)[:120],
+                                intersection_none=m.intersection is None))
+    for m in mans:
+        inter = tuple(m.intersection.maneuvers) if m.intersection is not None else ()
+        conf, rev = got[(id(m), "conflictingManeuvers")], got[(id(m), "reverseManeuvers")]
+        for attr, lst in (("conflictingManeuvers", conf), ("reverseManeuvers", rev)):
+            if lst is None:
+                continue
+            if len({id(x) for x in lst}) != len(lst):
+                bad.append(dict(rule=attr + "-duplicates", maneuver=ident(m)))
+            for x in lst:
+                if not any(x is y for y in inter):
+                    bad.append(dict(rule=attr + "-outside-intersection", maneuver=ident(m), other=ident(x)))
+                back = got.get((id(x), attr))
+                if back is not None and not any(y is m for y in back):
+                    bad.append(dict(rule=attr + "-not-reciprocal", maneuver=ident(m), other=ident(x)))
+        for x in conf or ():
+            if x.startLane is m.startLane:
+                bad.append(dict(rule="conflicting-same-start-lane", maneuver=ident(m), other=ident(x)))
+        for x in rev or ():
+            if not (x.startLane.road is m.endLane.road and x.endLane.road is m.startLane.road):
+                bad.append(dict(rule="reverse-roads-not-swapped", maneuver=ident(m), other=ident(x)))
+        # completeness of reverseManeuvers within the intersection
+        if rev is not None:
+            for y in inter:
+                if y.startLane.road is m.endLane.road and y.endLane.road is m.startLane.road and not any(y is r for r in rev):
+                    bad.append(dict(rule="reverse-incomplete", maneuver=ident(m), other=ident(y)))
+    return len(mans), bad[:200]
+
+
 class _Parsed(Exception):
     pass
+
+
+def _inflate(b):
+    """What a reader gets out of a (possibly truncated) gzip stream before any error: the decompressed prefix."""
+    import zlib
+    d = zlib.decompressobj(wbits=31)
+    out = b""
+    try:
+        for i in range(0, len(b), 65536):
+            out += d.decompress(b[i:i + 65536])
+    except zlib.error:
+        pass
+    return out
 
 
 def cache_probes(xodr, opts, digest_hex, variants):
@@ -434,6 +500,7 @@ def cache_probes(xodr, opts, digest_hex, variants):
         Network.fromOpenDrive = classmethod(stub)
         for var in variants:
             snet_b, map_b, o = good_snet, good_map, dict(opts)
+            payload_intact = False
             k = var["kind"]
             if k == "version":
                 cur = Network._currentFormatVersion()
@@ -448,6 +515,7 @@ def cache_probes(xodr, opts, digest_hex, variants):
                 snet_b = good_snet[:i] + bytes([good_snet[i] ^ var["xor"]]) + good_snet[i + 1:]
             elif k == "truncate":
                 snet_b = good_snet[:var["len"]]
+                payload_intact = len(snet_b) > 76 and _inflate(snet_b[76:]) == _inflate(good_snet[76:]) is not None
             elif k == "map-byte":
                 i = var["pos"] % len(good_map)
                 map_b = good_map[:i] + bytes([good_map[i] ^ var["xor"]]) + good_map[i + 1:]
@@ -478,7 +546,7 @@ def cache_probes(xodr, opts, digest_hex, variants):
             results.append(dict(var=var, outcome=outcome, version=(struct.unpack("<I", hdr[:4])[0] if len(hdr) >= 4 else None),
                                 hdr_len=len(hdr), file_len=len(snet_b), orig_len=len(good_snet), hdr_hex=hdr.hex(),
                                 digest=hdr[4:68].hex(), optdigest=hdr[68:76].hex(),
-                                map_digest=hashlib.blake2b(map_b).hexdigest(), opts=o))
+                                map_digest=hashlib.blake2b(map_b).hexdigest(), opts=o, payload_intact=payload_intact))
     finally:
         setattr(Network, "fromOpenDrive", orig)
         with open(snet, "wb") as f:
@@ -537,6 +605,12 @@ def job_export(job):
     except ExportError as e:
         res["export_error"] = str(e)
         return res
+    try:
+        res["maneuvers_examined"], res["maneuver_bad"] = maneuver_rules(parsed)
+        res["maneuver_bad_cached"] = maneuver_rules(cached)[1]
+    except Exception as e:  # noqa
+        import traceback
+        res["maneuver_error"] = traceback.format_exc()[-800:]
     rng = random.Random(job["seed"])
     pts = sample_points(parsed, job["npts"], rng)
     res["points"] = probe_points(parsed, pts)
